@@ -54,22 +54,56 @@ class _JExec(SymExec):
                 return v.name[0], v.name[2:]
             return None, None
 
-        (oa, fa), (ob, fb) = owner(a), owner(b)
-        if oa and ob and oa != ob and fa == fb:
-            c = self.name_cmp if fa == "_name" else self.coord_cmp if fa in ("_start", "_end") else None
-            if c is not None:
-                if oa == "y":
-                    c = -c
-                from ..sym import B
+        def order(u, v):
+            """-1 / 0 / 1: order of value u relative to v when they are the same field of the two fragments; None otherwise"""
+            (ou, fu), (ov, fv) = owner(u), owner(v)
+            if ou and ov and ou != ov and fu == fv:
+                c_ = self.name_cmp if fu == "_name" else self.coord_cmp if fu in ("_start", "_end") else None
+                if c_ is not None:
+                    return -c_ if ou == "y" else c_
+            return None
 
-                res = {ast.Lt: c < 0, ast.LtE: c <= 0, ast.Gt: c > 0, ast.GtE: c >= 0, ast.Eq: c == 0, ast.NotEq: c != 0}.get(type(op))
-                if res is not None:
-                    return B("const", res)
+        c = order(a, b)
+        if c is None and isinstance(a, Tup) and isinstance(b, Tup) and len(a.items) == len(b.items) and a.items:
+            # tuples compare lexicographically
+            for u, v in zip(a.items, b.items):
+                c = order(u, v)
+                if c is None or c != 0:
+                    break
+        if c is not None:
+            from ..sym import B
+
+            res = {ast.Lt: c < 0, ast.LtE: c <= 0, ast.Gt: c > 0, ast.GtE: c >= 0, ast.Eq: c == 0, ast.NotEq: c != 0}.get(type(op))
+            if res is not None:
+                return B("const", res)
         return super().compare(op, a, b, node, st)
 
     def call_hook(self, st, node, fval, args, kwargs, func):
         if dotted(node.func) == "sorted" and len(args) == 1 and isinstance(args[0], Tup) and len(args[0].items) == 2 and "key" not in kwargs:
             owners = []
+            # sorted((x.<f>, y.<f>)): two plain values of the same field, one of each fragment
+            plain = []
+            for it in args[0].items:
+                while isinstance(it, Str):
+                    it = it.v
+                if isinstance(it, Sym) and it.name[:2] in ("x.", "y."):
+                    plain.append((it.name[0], it.name[2:]))
+            if len(plain) == 2 and plain[0][0] != plain[1][0] and plain[0][1] == plain[1][1] and plain[0][1] in ("_name", "_start", "_end"):
+                from ..sym import B as _B
+
+                rev_ = kwargs.get("reverse")
+                if rev_ is None:
+                    rv_ = False
+                elif isinstance(rev_, _B) and rev_.kind == "const":
+                    rv_ = bool(rev_.a)
+                else:
+                    return NotImplemented
+                c_ = self.name_cmp if plain[0][1] == "_name" else self.coord_cmp  # order of x's value relative to y's
+                if plain[0][0] == "y":
+                    c_ = -c_  # order of the first item relative to the second
+                a_, b_ = args[0].items
+                swap = c_ < 0 if rv_ else c_ > 0  # a stable sort keeps equal values in place
+                return Tup([b_, a_] if swap else [a_, b_], "list")
             for pair in args[0].items:
                 if not isinstance(pair, Tup):
                     return NotImplemented
@@ -111,6 +145,8 @@ def _jt(repo, f, frag, x_name, x_strand, y_name, y_strand, x_first=True, order=N
     st.heap[(y_name, "_strand")] = Lin.const(y_strand)
     ps = f.params()
     finals = ex.run_function(f, st, {ps[0]: Sym(x_name, frag), ps[1]: Sym(y_name, frag)})
+    if len(finals) > 1:
+        raise AnalysisError(f"{f.short}: {len(finals)} outcomes for strands ({STRANDS[x_strand]},{STRANDS[y_strand]}) under a fixed order of the two names and coordinates: a branch condition is not a function of strands, name order and coordinate order — no verdict")
     if len(finals) != 1:
         return None
     r = finals[0].ret
@@ -174,6 +210,9 @@ def run(repo: Repo, L: Ledger, tier: str):
                         continue
                     n2 += 1
                     rel = {-1: "<", 0: "==", 1: ">"}
+                    if name_cmp == 0:
+                        # equal names: the two name symbols denote the same value
+                        t, t2 = tuple("x._name" if v == "y._name" else v for v in t), tuple("x._name" if v == "y._name" else v for v in t2)
                     L.check(
                         t == t2, "R1", f"{jt.short}({STRANDS[sx]},{STRANDS[sy]})[name x{rel[name_cmp]}y, coord x{rel[coord_cmp]}y]",
                         "same tuple from the reversed scaffold",
